@@ -80,6 +80,31 @@ pub fn c03_configs(tier: Tier) -> Vec<InCfg> {
                 known: vec![],
                 bp: 0,
             });
+            // v5: "exactly the topic that was sent" also when it was sent as a Topic Alias - bound, re-bound to another
+            // topic, used (seeded change C03_r9: the v5 client kept the first binding of an alias for ever). QoS 1
+            // publishes with gated handlers, so the alias table is consulted while earlier handlers are still
+            // running; the resolved topic (and, behind the client's router, the resource) is judged by the C17 monitor
+            if ver == Ver::V5 {
+                let mut aep = stream_ep.clone();
+                aep.min_chunk_size = EpCfg::new(ver, role).min_chunk_size;
+                aep.max_topic_alias = 2;
+                let p = |topic: u8, alias: u16| T::Pub { qos: 1, id: 0, len: 1, topic, alias };
+                v.push(InCfg {
+                    ep: aep,
+                    connect_props: vec![],
+                    alphabet: vec![p(1, 1), p(2, 1), p(3, 1), p(2, 2), p(1, 0)],
+                    prologue: vec![],
+                    max_len: if tier == Tier::Quick { 3 } else { 4 },
+                    outcomes: vec![GateOutcome::Ok],
+                    poutcomes: vec![GateOutcome::Ok],
+                    cork: false,
+                    judge: J_C03 | J_C17,
+                    app_sends: vec![],
+                    skip_connect: false,
+                    known: vec![],
+                    bp: 0,
+                });
+            }
             // explored twice: one packet fewer with injections while runnable, full length at quiescence only
             // (run_c03 picks the deviation bound by max_len)
             for long in [false, true] {
